@@ -1,12 +1,17 @@
 // C07 Layer T — thread interleavings of the real queue objects (Engine T, package sched).
 //
-// The application's writer, the application's reader, the exchange loop (the client's
-// SendAndReceive and the server's packet handler it reaches) and a second server handler
-// that processes a duplicate of the latest query all run as controlled threads on ONE real
-// InQueue/OutQueue pair per direction. Every Lock/Unlock of the queues' mutexes (sync-shim)
-// is a scheduling point; the explorer enumerates every schedule with at most `bound`
-// preemptions. Oracle per schedule: no deadlock, no panic, every Write returns, and what
-// each reader got is exactly what the peer's writer was told was accepted.
+// The thread structure is the real client's and server's: the application's writer sends
+// its own chunks from inside OutQueue.Write (OnChunkAdded -> outChunkAdded: NextChunk, then
+// SendAndReceive under commMutex); the poll loop picks a chunk BEFORE it takes commMutex,
+// exactly like the goroutine started by ClientDnsConnection.Handshake; the server's handler
+// is ServerDnsListener.packet without the session lookup, and a second handler goroutine
+// processes a duplicate of the latest query concurrently (miekg/dns serves every datagram
+// on its own goroutine); the applications' readers block in InQueue.Read. Every Lock (and,
+// in the fine-grained program, every Unlock) of the queues' mutexes and of commMutex is a
+// scheduling point (sync-shim); the explorer enumerates every schedule with at most `bound`
+// deviations from a fair default schedule. Oracle per schedule: no deadlock, no panic,
+// every Write returns, no exchange is refused, and what each reader got is exactly what the
+// peer's writer was told was accepted.
 package c07
 
 import (
@@ -19,10 +24,11 @@ import (
 	"testing"
 	"time"
 
+	"github.com/bokysan/socketace/v2/internal/streams/dns/util"
 	"github.com/bokysan/socketace/v2/verifharness/bubble"
 	"github.com/bokysan/socketace/v2/verifharness/mc"
 	"github.com/bokysan/socketace/v2/verifharness/sched"
-	"github.com/bokysan/socketace/v2/verifharness/world"
+	"github.com/bokysan/socketace/v2/verifharness/syncshim"
 )
 
 type CaseT struct {
@@ -38,17 +44,19 @@ func (c CaseT) String() string {
 
 type progT struct {
 	name   string
-	cw, sw []int          // sizes of the client's / server's application writes
-	fates  []world.Fate   // fates of the first exchanges (then Delivered)
-	dup    int            // a second server handler re-handles the latest query this many times
-	bufC   int            // client reader buffer
+	cw, sw []int // sizes of the client's / server's application writes
+	polls  int   // exchanges the client's poll loop performs (besides those the writer triggers itself)
+	dup    int   // a second server handler re-handles the latest query this many times
+	bufC   int   // client reader buffer
 	bufS   int
+	unlock bool // Unlock returns are scheduling points too
 }
 
 var progsT = []progT{
-	{name: "rw", cw: []int{3, 3}, sw: []int{3}, bufC: 64, bufS: 64},
-	{name: "dup", cw: []int{6}, sw: nil, dup: 2, bufS: 64, bufC: 64},
-	{name: "lossy", cw: []int{3}, sw: []int{6}, fates: []world.Fate{world.AnswerLost, world.Delivered, world.QueryDup}, bufC: 2, bufS: 64},
+	{name: "up", cw: []int{3, 3}, polls: 2, bufS: 64, bufC: 64},
+	{name: "both", cw: []int{3}, sw: []int{3}, polls: 4, bufC: 2, bufS: 64},
+	{name: "dup", cw: []int{6}, polls: 2, dup: 2, bufS: 64, bufC: 64},
+	{name: "up-fine", cw: []int{3}, polls: 1, bufS: 64, bufC: 64, unlock: true},
 }
 
 func progByName(n string) *progT {
@@ -64,11 +72,13 @@ func progByName(n string) *progT {
 func runT(t *testing.T, pg *progT, start uint16, prefix []int) (x *sched.Exec, kind, detail string) {
 	res := bubble.Run(t, func() {
 		p := newPair(start)
+		var commMutex syncshim.Mutex // ClientDnsConnection.commMutex
 		var histMu sync.Mutex
 		var cwDone, swDone atomic.Bool
 		var srGot, crGot atomic.Int64
 		var cAcc, sAcc, sRead, cRead []byte // accepted by Write / read by the peer's reader
 		var accMu sync.Mutex
+		var exchErr atomic.Value
 		wantS, wantC := 0, 0
 		for _, n := range pg.cw {
 			wantS += n
@@ -77,6 +87,29 @@ func runT(t *testing.T, pg *progT, start uint16, prefix []int) (x *sched.Exec, k
 			wantC += n
 		}
 		s := sched.New(prefix)
+		s.UnlockPoints = pg.unlock
+		sendAndReceive := func(chunk *util.Packet) error {
+			commMutex.Lock()
+			defer commMutex.Unlock()
+			r := req{ack: p.cIn.NextSeqNo - 1, pkt: chunk}
+			histMu.Lock()
+			p.hist = append(p.hist, r)
+			histMu.Unlock()
+			a, pk, err := p.serverHandle(r)
+			if err != nil {
+				return err
+			}
+			p.cOut.UpdateAcked(a)
+			return p.cIn.Append(pk)
+		}
+		p.cOut.OnChunkAdded = func() error {
+			for chunk := p.cOut.NextChunk(); chunk != nil; chunk = p.cOut.NextChunk() {
+				if err := sendAndReceive(chunk); err != nil {
+					return err
+				}
+			}
+			return nil
+		}
 		writer := func(sizes []int, tag byte, write func([]byte) (int, error), acc *[]byte, done *atomic.Bool) func() {
 			return func() {
 				off := 0
@@ -88,6 +121,7 @@ func runT(t *testing.T, pg *progT, start uint16, prefix []int) (x *sched.Exec, k
 					*acc = append(*acc, b[:k]...)
 					accMu.Unlock()
 					if err != nil {
+						exchErr.Store(err.Error())
 						break
 					}
 				}
@@ -119,21 +153,19 @@ func runT(t *testing.T, pg *progT, start uint16, prefix []int) (x *sched.Exec, k
 		if wantC > 0 {
 			s.Go("client-reader", reader(wantC, pg.bufC, p.cIn.Read, &cRead, &crGot))
 		}
-		var exchErr error
-		s.Go("exchange", func() {
-			for i := 0; i < 16; i++ {
-				f := world.Delivered
-				if i < len(pg.fates) {
-					f = pg.fates[i]
-				}
-				histMu.Lock()
-				err := p.exchange(f)
-				histMu.Unlock()
-				if err != nil {
-					exchErr = err
+		finished := func() bool {
+			return cwDone.Load() && swDone.Load() && int(srGot.Load()) >= wantS && int(crGot.Load()) >= wantC
+		}
+		s.Go("poll-loop", func() {
+			// the poll loop runs for as long as the connection lives: at least pg.polls times, and
+			// then until everything accepted has arrived (bounded)
+			for i := 0; i < pg.polls+12; i++ {
+				if i >= pg.polls && finished() {
 					return
 				}
-				if cwDone.Load() && swDone.Load() && int(srGot.Load()) >= wantS && int(crGot.Load()) >= wantC {
+				chunk := p.cOut.NextChunk()
+				if err := sendAndReceive(chunk); err != nil {
+					exchErr.Store(err.Error())
 					return
 				}
 				s.Yield("poll")
@@ -150,12 +182,16 @@ func runT(t *testing.T, pg *progT, start uint16, prefix []int) (x *sched.Exec, k
 					}
 					histMu.Unlock()
 					if r != nil {
-						p.serverHandle(*r) // the answer is lost
+						// a duplicate of the latest query; its answer may be the one the client sees
+						if _, _, err := p.serverHandle(*r); err != nil {
+							exchErr.Store("duplicate of a valid query refused: " + err.Error())
+						}
 					}
 				}
 			})
 		}
 		x = s.Run()
+		e, _ := exchErr.Load().(string)
 		switch {
 		case len(x.Panics) > 0:
 			kind, detail = "T|panic", fmt.Sprint(x.Panics)
@@ -163,8 +199,8 @@ func runT(t *testing.T, pg *progT, start uint16, prefix []int) (x *sched.Exec, k
 			kind, detail = "T|deadlock", x.Deadlock
 		case x.Capped:
 			kind, detail = "T|livelock", "step limit reached"
-		case exchErr != nil:
-			kind, detail = "T|exchange-error", exchErr.Error()
+		case e != "":
+			kind, detail = "T|exchange-error", e
 		default:
 			accMu.Lock()
 			switch {
@@ -203,7 +239,7 @@ func TestLayerTSmoke(t *testing.T) {
 			t0 := time.Now()
 			kinds := map[string]int{}
 			steps := 0
-			n, _ := sched.Explore(bound, func(prefix []int) *sched.Exec {
+			n, complete := sched.Explore(bound, func(prefix []int) *sched.Exec {
 				x, kind, detail := runT(t, &pg, 0, prefix)
 				kinds[kind]++
 				if kind != "" && kinds[kind] == 1 {
@@ -217,13 +253,13 @@ func TestLayerTSmoke(t *testing.T) {
 					steps = len(x.Steps)
 				}
 				return x
-			}, func(*sched.Exec) bool { return time.Since(t0) < 120*time.Second }, func(int) bool { return true })
-			t.Logf("prog=%s bound=%d schedules=%d max points=%d outcomes=%v in %v", pg.name, bound, n, steps, kinds, time.Since(t0))
+			}, func(*sched.Exec) bool { return time.Since(t0) < 40*time.Second }, func(int) bool { return true })
+			t.Logf("prog=%s bound=%d schedules=%d complete=%v max points=%d outcomes=%v in %v", pg.name, bound, n, complete, steps, kinds, time.Since(t0))
 		}
 	}
 }
 
-// layerT explores every schedule of every program with at most bound preemptions.
+// layerT explores every schedule of every program with at most bound deviations.
 func layerT(t *testing.T, r *mc.Run, bound int) {
 	outcomes := map[string]bool{}
 	for _, pg := range progsT {
@@ -263,6 +299,6 @@ func layerT(t *testing.T, r *mc.Run, bound int) {
 			r.Note("max_layerT_points_"+pg.name, maxSteps)
 		}
 	}
-	r.Note("layerT_preemption_bound", bound)
+	r.Note("layerT_deviation_bound", bound)
 	r.Note("max_layerT_distinct_outcomes", len(outcomes))
 }
